@@ -76,15 +76,19 @@ def cell(c, d, i):
     try:
         f1 = quiet(pg.identify_pytorch_file_format, p)
         f2 = quiet(pg.identify_pytorch_file_format, p)
+        # the reporting options print; they are not part of the question
+        f3 = quiet(pg.identify_pytorch_file_format, p, print_results=True)
+        f4 = quiet(pg.identify_pytorch_file_format, p, print_properties=True, print_results=(i % 2 == 0))
+        opts_same = list(f3) == list(f1) and list(f4) == list(f1)
         exc = ""
     except Exception as e:  # noqa: BLE001
-        f1, f2, exc = ["<raised>"], ["<raised2>"], type(e).__name__
+        f1, f2, exc, opts_same = ["<raised>"], ["<raised2>"], type(e).__name__, True
     try:
         rd = torch._C.PyTorchFileReader(p)
         acc = bool(rd.has_record("data.pkl"))
     except Exception:  # noqa: BLE001
         acc = False
-    rec = {"kind": "cell", "ms": sorted(c["ms"]), "junk": c["junk"], "formats": list(f1), "formats2": list(f2), "torch_accepts": acc,
+    rec = {"kind": "cell", "ms": sorted(c["ms"]), "junk": c["junk"], "formats": list(f1), "formats2": list(f2), "opts_same": bool(opts_same), "torch_accepts": acc,
            "same_bytes": sha(p) == h0, "same_listing": listing(d) == l0, "cell": c, "exc": exc}
     os.remove(p)
     return rec
